@@ -154,10 +154,10 @@ class Repo:
             base = base[: len(base) - (node.level - 1)]
         return ".".join(base + ([node.module] if node.module else []))
 
-    def _index(self, mi: ModuleInfo, body, in_branch=False):
+    def _index(self, mi: ModuleInfo, body, in_branch=False, no_overwrite=False):
         for node in body:
             if isinstance(node, (ast.FunctionDef, ast.AsyncFunctionDef)):
-                if node.name not in mi.functions or not in_branch:
+                if node.name not in mi.functions or not no_overwrite:
                     mi.functions[node.name] = FuncInfo(
                         node.name, node.name, mi, node, None,
                         [_dec_name(d) for d in node.decorator_list])
@@ -177,12 +177,15 @@ class Repo:
                         for t in sub.targets:
                             if isinstance(t, ast.Name):
                                 ci.class_attrs[t.id] = sub.value
-                # the later definition wins at import time (json_rpc_message defines JSONRPCMessage twice)
-                mi.classes[node.name] = ci
+                # the later definition wins at import time (json_rpc_message defines JSONRPCMessage twice);
+                # the else-half of a module-level if (the no-pydantic fallback) never overrides the first half
+                if node.name not in mi.classes or not no_overwrite:
+                    mi.classes[node.name] = ci
             elif isinstance(node, ast.Assign):
                 for t in node.targets:
                     if isinstance(t, ast.Name):
-                        mi.constants[t.id] = node.value
+                        if t.id not in mi.constants or not no_overwrite:
+                            mi.constants[t.id] = node.value
                     elif isinstance(t, ast.Tuple):
                         pass
             elif isinstance(node, ast.AnnAssign) and isinstance(node.target, ast.Name) and node.value is not None:
@@ -200,12 +203,12 @@ class Repo:
             elif isinstance(node, ast.If):
                 # module-level if/else (e.g. the pydantic / fallback halves): the first branch that
                 # defines a name wins unless told otherwise; both are indexed.
-                self._index(mi, node.body, in_branch=True)
-                self._index(mi, node.orelse, in_branch=True)
+                self._index(mi, node.body, in_branch=True, no_overwrite=no_overwrite)
+                self._index(mi, node.orelse, in_branch=True, no_overwrite=True)
             elif isinstance(node, ast.Try):
-                self._index(mi, node.body, in_branch=True)
+                self._index(mi, node.body, in_branch=True, no_overwrite=no_overwrite)
                 for h in node.handlers:
-                    self._index(mi, h.body, in_branch=True)
+                    self._index(mi, h.body, in_branch=True, no_overwrite=True)
 
     # -- lookups ----------------------------------------------------------------
     def function(self, key: str) -> FuncInfo:
